@@ -21,6 +21,10 @@ n-d object array whose elements are all str     `Val.objarr shape elems` (elems 
 dtype / type objects inside a token             `Val.atom repr` (identified by their repr)
 hash_buffer_hex(bytes)                          `Val.hash tag payload` (tag 0: interned elements, 1: code points of a str
                                                 that is utf-8 encoded, 2: int64 array)
+tokenize(x) used as a value (a str)             `Val.digest v` where v = normalize_token(x): the str md5(repr((v,)))
+sorted(tokenize(a) for a in …)                  `Val.sortedTokens xs` (xs digests; the order is the order of the hex strings,
+                                                which the model cannot know: kept in input order, compared up to permutation)
+_normalize_pickle(obj) = (pik, [])              `Val.pickled kind payload` (object of class `kind` determined by `payload`)
 sorted(d.items(), key=…) / sorted(s, key=…)     `ssort` (stable insertion sort on the key computed BEFORE normalising)
 
 Import-free (linked into the native driver).
@@ -43,6 +47,9 @@ inductive Val where
   | arr0 (item : Val) (dtype : String)
   | ndarray (dtype : String) (shape : List Nat) (strides : List Int) (offset : Int) (buf : List Nat)
   | objarr (shape : List Nat) (elems : List (List Nat))
+  | digest (v : Val)
+  | sortedTokens (xs : List Val)
+  | pickled (kind : String) (payload : Val)
   deriving Repr, Inhabited
 
 /-! ## Python `repr` of the scalar classes -/
@@ -123,6 +130,9 @@ def pyRepr : Val → String
   | .arr0 _ _ => "<ndarray>"
   | .ndarray _ _ _ _ _ => "<ndarray>"
   | .objarr _ _ => "<ndarray>"
+  | .digest v => "'\x01D(" ++ pyRepr v ++ ",)\x02'"
+  | .sortedTokens xs => "\x01S" ++ "\x03".intercalate (pyReprL xs) ++ "\x02"
+  | .pickled kind payload => "('\x01P" ++ kind ++ ":" ++ pyRepr payload ++ "\x02', [])"
 def pyReprL : List Val → List String
   | [] => []
   | x :: xs => pyRepr x :: pyReprL xs
@@ -142,6 +152,7 @@ def typeName : Val → String
   | .bytes _ => "bytes" | .none => "NoneType" | .atom _ => "object" | .hash _ _ => "str"
   | .list _ => "list" | .tuple _ => "tuple" | .dict _ => "dict" | .set _ => "set"
   | .arr0 _ _ => "ndarray" | .ndarray _ _ _ _ _ => "ndarray" | .objarr _ _ => "ndarray"
+  | .digest _ => "str" | .sortedTokens _ => "list" | .pickled _ _ => "tuple"
 
 /-! ## `sorted(..., key=...)`: stable insertion sort on string keys -/
 
@@ -212,6 +223,9 @@ def norm : Val → Val
   | .objarr shape elems =>
     .tuple [.tuple [.hash 1 (joinDash elems), .hash 2 (elems.map List.length)],
             .atom "dtype('O')", .tuple (shape.map (fun n => .int (Int.ofNat n)))]
+  | .digest v => .digest v
+  | .sortedTokens xs => .sortedTokens xs
+  | .pickled k p => .pickled k p
 def normL : List Val → List Val
   | [] => []
   | x :: xs => norm x :: normL xs
